@@ -21,7 +21,7 @@ LEVEL_TEXT = (
     "a ContextVar handed to a helper of the module as an argument stays a storage inside the helper, and any other use of it "
     "(returned, passed to foreign code, .reset) is ANALYSIS-ERROR because reads/bindings could then happen out of sight; (R18.2) "
     "release rebinds the ContextVar (directly or through a helper that unconditionally sets its parameter) to an empty container "
-    "of the payload's kind on every path and mutates nothing, "
+    "of the payload's kind (a literal, through local names, a conditional expression, or what a factory helper of the module returns on every exit) on every path and mutates nothing, "
     "release_local / LocalManager.cleanup release every managed local by a call in the calling context that is executed on every path "
     "AND for every element: some iteration over all managed locals (for loop, eager comprehension, generator expression / map "
     "pulled to its end by list()/tuple()/set()/deque()/`[*it]`/a loop, a for loop over `range(len(locals))`, a while loop driven by a "
@@ -36,7 +36,7 @@ LEVEL_TEXT = (
     "test that there are locals), not a branch of a conditional "
     "expression, not under a test (also one fed by earlier iterations), not filtered by a comprehension `if`, not pulled by "
     "any()/all()/next() (which stop early), not inside an `assert` - the loop is never left early (break / return / raise) and "
-    "is bypassed only on paths where the container is known to be empty (a bypass under a test of the locals that is not understood, "
+    "is bypassed only on paths where the container is known to be empty (its truthiness or length tested directly, negated, or through a flag computed before the branch; a bypass under a test of the locals that is not understood, "
     "or a loop variable handed to code that is not understood, is ANALYSIS-ERROR, not a violation); the same in-statement conditionality applies to the "
     "`.set` of a release method, the delegation in release_local, the installation of _get_current_object and the resolution "
     "in _ProxyLookup.__get__; "
@@ -64,11 +64,11 @@ LEVEL_TEXT = (
     "module-level sentinel, any/all over nothing; helpers of the module it calls are followed; an exit that is reached only beyond a payload-dependent "
     "condition or value the run cannot evaluate is ANALYSIS-ERROR, never a violation), every `.get` on a storage passes an empty default (literally, or through a helper parameter at every call site), each proxy variant turns that "
     "outcome (AttributeError / None / LookupError) into RuntimeError (an except clause, or - for a value that is a sentinel when nothing is bound: None top, "
-    "`var.get(<module-level object()>)`, `getattr(local, name, <module-level object()>)` - an identity test whose sentinel branch can only raise it; the raise may "
+    "`var.get(<module-level object()>)`, `getattr(local, name, <module-level object()>)` - an identity test (in the branch condition, or in a flag computed before it) whose sentinel branch can only raise it; the raise may "
     "sit in a nested / module helper that never returns, the exception may be built first or by a helper, the test may sit in a helper that is handed the value), "
     "_ProxyLookup.__get__ catches RuntimeError, re-raises it exactly "
     "when no fallback was declared and otherwise returns a value produced from the fallback (decided by walking the code that handles the exception under both "
-    "valuations of 'a fallback is declared' - tests of the fallback slot through local names, `is None` / truthiness -, following helpers of the module "
+    "valuations of 'a fallback is declared' - tests of the fallback slot through local names, `is None` / truthiness, `not` / `and` / `or` / bool() of those, and flags computed from it before the branch (`missing = self.fallback is None`) -, following helpers of the module "
     "called from the handler, where a bare `raise` re-raises the exception being handled, and flags set in the handler and tested after the try statement), "
     "__bool__'s fallback returns False and __repr__'s fallback does "
     "not go through the bound object; (R18.5) Local/LocalStack instances have no storage besides the ContextVar (__slots__), the "
@@ -249,9 +249,44 @@ def _only_raises(flow: Flow, u: Unit, starts: list[Node], allowed: set[str | Non
     return not bad, fact
 
 
-def _none_test(t: Node, is_subject, is_sentinel=astq.is_none) -> str | None:
-    """label of the edge on which the tested subject IS None - or, with ``is_sentinel``, is that sentinel - ('T' / 'F'), if t is such a test."""
+def _sentinel_when(e: ast.AST | None, u: Unit, is_subject, is_sentinel, depth: int = 0) -> str | None:
+    """the truth value ('T' / 'F') of condition e that means "the subject IS the sentinel": an identity / equality test of
+    it, `not` / bool() of such a condition, or a local name every reaching definition of which is such a condition with the
+    same answer (a flag computed before the branch: `unbound = obj is None`); None for anything else."""
+    if e is None or depth > 6:
+        return None
+    if isinstance(e, ast.NamedExpr):
+        return _sentinel_when(e.value, u, is_subject, is_sentinel, depth + 1)
+    if isinstance(e, ast.UnaryOp) and isinstance(e.op, ast.Not):
+        r = _sentinel_when(e.operand, u, is_subject, is_sentinel, depth + 1)
+        return None if r is None else _other(r)
+    if isinstance(e, ast.Call) and dotted(e.func) == "bool" and len(e.args) == 1 and not e.keywords:
+        return _sentinel_when(e.args[0], u, is_subject, is_sentinel, depth + 1)
+    if isinstance(e, ast.Compare) and len(e.ops) == 1:
+        l, op, r = e.left, e.ops[0], e.comparators[0]
+        if is_sentinel(l) and not is_sentinel(r):
+            l, r = r, l
+        if not is_sentinel(r) or not is_subject(l):
+            return None
+        return "T" if isinstance(op, (ast.Is, ast.Eq)) else "F" if isinstance(op, (ast.IsNot, ast.NotEq)) else None
+    if isinstance(e, ast.Name) and not is_subject(e):
+        node = u.cfg.node_of(e)
+        defs = u.rd.reaching(node, e.id) if node is not None else frozenset()
+        got = set()
+        for d in defs:
+            if d.kind not in ("assign", "walrus") or d.index is not None or d.value is None:
+                return None
+            got.add(_sentinel_when(d.value, u, is_subject, is_sentinel, depth + 1))
+        return next(iter(got)) if len(got) == 1 else None
+    return None
+
+
+def _none_test(t: Node, is_subject, is_sentinel=astq.is_none, u: Unit | None = None) -> str | None:
+    """label of the edge on which the tested subject IS None - or, with ``is_sentinel``, is that sentinel - ('T' / 'F'), if t is such a test
+    (with ``u``: also through `not`, bool() and flags held in local names of that unit)."""
     a = t.ast
+    if t.kind == "test" and u is not None and a is not None and not (isinstance(a, ast.Compare) and len(a.ops) == 1):
+        return _sentinel_when(a, u, is_subject, is_sentinel)
     if t.kind != "test" or not isinstance(a, ast.Compare) or len(a.ops) != 1:
         return None
     l, op, r = a.left, a.ops[0], a.comparators[0]
@@ -876,25 +911,57 @@ def _empty_edges(flow: Flow, cu: Unit, is_managed, understood: set[int] | None =
             return bool(defs) and all(d.kind in ("assign", "walrus") and d.index is None and d.value is not None and is_count(d.value, depth + 1) for d in defs)
         return False
 
-    for t_ in cu.cfg.tests():
-        e = t_.ast
-        if t_.kind != "test" or e is None:
-            continue
-        if is_managed(e, t_) or is_count(e):
-            out.append((t_, "F"))
-        elif isinstance(e, ast.Compare) and len(e.ops) == 1:
+    def empty_when(e: ast.AST | None, at: Node | None, depth: int = 0) -> str | None:
+        """the truth value ("T" / "F") of condition e that implies the managed container is empty; "?" when e is a
+        comparison of its length that implies emptiness on neither side; None when e is not a test of it.  Through `not`,
+        bool(), a walrus, and a local name every reaching definition of which is such a condition with the same answer (a
+        flag computed before the branch: `nothing = not self.locals`)."""
+        if e is None or depth > 6:
+            return None
+        if isinstance(e, ast.NamedExpr):
+            return empty_when(e.value, at, depth + 1)
+        if is_managed(e, at) or is_count(e):
+            return "F"
+        if isinstance(e, ast.UnaryOp) and isinstance(e.op, ast.Not):
+            r_ = empty_when(e.operand, at, depth + 1)
+            return {"T": "F", "F": "T"}.get(r_, r_)  # type: ignore[arg-type]
+        if isinstance(e, ast.Call) and dotted(e.func) == "bool" and len(e.args) == 1 and not e.keywords:
+            return empty_when(e.args[0], at, depth + 1)
+        if isinstance(e, ast.Compare) and len(e.ops) == 1:
             l, op, r = e.left, e.ops[0], e.comparators[0]
             if isinstance(l, ast.Constant):
                 l, r = r, l
                 op = {ast.Lt: ast.Gt, ast.Gt: ast.Lt, ast.LtE: ast.GtE, ast.GtE: ast.LtE}.get(type(op), type(op))()
             if is_count(l) and isinstance(r, ast.Constant) and type(r.value) is int:
                 k = r.value
-                if understood is not None:
-                    understood.add(id(t_))
                 if (isinstance(op, ast.Eq) and k == 0) or (isinstance(op, ast.Lt) and k == 1) or (isinstance(op, ast.LtE) and k == 0):
-                    out.append((t_, "T"))
-                elif (isinstance(op, (ast.NotEq, ast.Gt)) and k == 0) or (isinstance(op, ast.GtE) and k == 1):
-                    out.append((t_, "F"))
+                    return "T"
+                if (isinstance(op, (ast.NotEq, ast.Gt)) and k == 0) or (isinstance(op, ast.GtE) and k == 1):
+                    return "F"
+                return "?"
+            return None
+        if isinstance(e, ast.Name):
+            node = cu.cfg.node_of(e)
+            defs = cu.rd.reaching(node, e.id) if node is not None else frozenset()
+            got = set()
+            for d in defs:
+                if d.kind not in ("assign", "walrus") or d.index is not None or d.value is None:
+                    return None
+                got.add(empty_when(d.value, d.node, depth + 1))
+            return next(iter(got)) if len(got) == 1 else ("?" if got and None not in got else None)
+        return None
+
+    for t_ in cu.cfg.tests():
+        e = t_.ast
+        if t_.kind != "test" or e is None:
+            continue
+        w = empty_when(e, t_)
+        if w is None:
+            continue
+        if understood is not None and not (is_managed(e, t_) or is_count(e)):
+            understood.add(id(t_))
+        if w in ("T", "F"):
+            out.append((t_, w))
     return out
 
 
@@ -1025,8 +1092,17 @@ class _Scan:
             return bool(defs) and all(d.kind in ("assign", "walrus") and d.index is None and d.value is not None and self._is_count(d.value, depth + 1) for d in defs)
         return False
 
-    def mentions(self, e: ast.AST) -> bool:
-        return any((isinstance(y, ast.Attribute) and y.attr == self.attr and self.flow.self_ref(y.value, self.cu)) or (isinstance(y, ast.Name) and y.id in self.params) for y in ast.walk(e))
+    def mentions(self, e: ast.AST, depth: int = 0) -> bool:
+        """e reads the managed locals - directly, or through local names computed from them (`n = len(self.locals)`)."""
+        for y in ast.walk(e):
+            if (isinstance(y, ast.Attribute) and y.attr == self.attr and self.flow.self_ref(y.value, self.cu)) or (isinstance(y, ast.Name) and y.id in self.params):
+                return True
+            if isinstance(y, ast.Name) and isinstance(y.ctx, ast.Load) and depth < 4:
+                node = self.cfg.node_of(y)
+                for d in (self.cu.rd.reaching(node, y.id) if node is not None else ()):
+                    if d.kind in ("assign", "walrus", "unpack") and d.value is not None and d.value is not e and self.mentions(d.value, depth + 1):
+                        return True
+        return False
 
     def role(self, e: ast.AST | None, at: Node | None, depth: int = 0) -> str | None:
         """what iterating e yields for every managed local: "elem" (the local), "bound" (its bound release method) or
@@ -1940,8 +2016,66 @@ class _HandlerWalk:
                 for d in defs)
         return isinstance(e, ast.Attribute) and self.flow.self_ref(e.value, u) and e.attr == self.fb_attr
 
-    def mentions_fb(self, e: ast.AST, u: Unit, binds: dict[str, bool]) -> bool:
-        return any(isinstance(x, (ast.Name, ast.Attribute, ast.Call)) and self.is_fb(x, u, binds) for x in ast.walk(e))
+    def mentions_fb(self, e: ast.AST, u: Unit, binds: dict[str, bool], depth: int = 0) -> bool:
+        """the expression reads the fallback slot - directly, or through local names whose values were computed from it
+        (a flag such as `missing = self.fallback is None`)."""
+        for x in ast.walk(e):
+            if isinstance(x, (ast.Name, ast.Attribute, ast.Call)) and self.is_fb(x, u, binds):
+                return True
+            if isinstance(x, ast.Name) and isinstance(x.ctx, ast.Load) and depth < 4:
+                node = u.cfg.node_of(x)
+                for d in (u.rd.reaching(node, x.id) if node is not None else ()):
+                    if d.kind in ("assign", "walrus", "unpack") and d.value is not None and d.value is not e and self.mentions_fb(d.value, u, binds, depth + 1):
+                        return True
+        return False
+
+    def fb_truth(self, e: ast.AST | None, u: Unit, binds: dict[str, bool], has_fb: bool, depth: int = 0) -> bool | None:
+        """truth value of a condition that only depends on whether a fallback is declared, under the valuation: the slot
+        tested against None (either way round), its truthiness (declared fallbacks are functions), `not` / `and` / `or` /
+        bool() / conditional expressions of such conditions, constants, and a local name every reaching definition of which
+        is such a condition with the same value (a flag computed before the branch); None when it is anything else."""
+        if e is None or depth > 8:
+            return None
+        if isinstance(e, ast.NamedExpr):
+            return self.fb_truth(e.value, u, binds, has_fb, depth + 1)
+        if isinstance(e, ast.Constant):
+            return bool(e.value)
+        if isinstance(e, ast.UnaryOp) and isinstance(e.op, ast.Not):
+            r = self.fb_truth(e.operand, u, binds, has_fb, depth + 1)
+            return None if r is None else not r
+        if isinstance(e, ast.BoolOp):
+            rs = [self.fb_truth(x, u, binds, has_fb, depth + 1) for x in e.values]
+            decides = not isinstance(e.op, ast.And)
+            if any(r is decides for r in rs):
+                return decides
+            return None if any(r is None for r in rs) else (not decides)
+        if isinstance(e, ast.IfExp):
+            c = self.fb_truth(e.test, u, binds, has_fb, depth + 1)
+            return None if c is None else self.fb_truth(e.body if c else e.orelse, u, binds, has_fb, depth + 1)
+        if isinstance(e, ast.Call) and dotted(e.func) == "bool" and len(e.args) == 1 and not e.keywords:
+            return self.fb_truth(e.args[0], u, binds, has_fb, depth + 1)
+        if isinstance(e, ast.Compare) and len(e.ops) == 1:
+            l, op, r = e.left, e.ops[0], e.comparators[0]
+            if astq.is_none(l) and not astq.is_none(r):
+                l, r = r, l
+            if astq.is_none(r) and self.is_fb(l, u, binds):
+                if isinstance(op, (ast.Is, ast.Eq)):
+                    return not has_fb
+                if isinstance(op, (ast.IsNot, ast.NotEq)):
+                    return has_fb
+            return None
+        if self.is_fb(e, u, binds):
+            return has_fb if self.truthy else None
+        if isinstance(e, ast.Name):
+            node = u.cfg.node_of(e)
+            defs = u.rd.reaching(node, e.id) if node is not None else frozenset()
+            vals = set()
+            for d in defs:
+                if d.kind not in ("assign", "walrus") or d.index is not None or d.value is None:
+                    return None
+                vals.add(self.fb_truth(d.value, u, binds, has_fb, depth + 1))
+            return next(iter(vals)) if len(vals) == 1 and None not in vals else None
+        return None
 
     def _binds_at(self, cu: Unit, call: ast.Call, off: int, u: Unit, binds: dict[str, bool]) -> dict[str, bool]:
         out: dict[str, bool] = {}
@@ -1998,6 +2132,10 @@ class _HandlerWalk:
         if t_.kind == "test" and t_.ast is not None and self.is_fb(t_.ast, u, binds):
             if self.truthy:
                 return "T" if has_fb else "F"
+        if t_.kind == "test" and t_.ast is not None:
+            tr = self.fb_truth(t_.ast, u, binds, has_fb)  # type: ignore[arg-type]
+            if tr is not None and not isinstance(t_.ast, ast.Constant):
+                return "T" if tr else "F"
         return None
 
     def outcomes(self, u: Unit, starts: list[Node], has_fb: bool, binds: dict[str, bool], depth: int = 0, in_handler: bool = True) -> list[_HOut]:
@@ -2163,7 +2301,7 @@ def _r4(ctx: Ctx, flow: Flow, storage, kinds: dict[str, str], variants: list[Var
         def tested_in(vv: Variant, is_val, where: str) -> bool | None:
             """obligations for the tests of the value in vv.unit; None when there is no such test."""
             cfg = vv.unit.cfg
-            tests = [(t_, _none_test(t_, is_val, is_sentinel)) for t_ in cfg.tests()]
+            tests = [(t_, _none_test(t_, is_val, is_sentinel, vv.unit)) for t_ in cfg.tests()]
             tests = [(t_, l) for t_, l in tests if l is not None]
             if not tests:
                 return None
